@@ -7,6 +7,8 @@ COMMON_ASSUME = [
 ]
 
 TIERS = {
+    "C20": {"quick": {"runs": 300, "budget_s": 80, "run_timeout_s": 300},
+            "thorough": {"runs": 5000, "budget_s": 900, "run_timeout_s": 600}},
     "C13": {"quick": {"runs": 240, "budget_s": 80, "run_timeout_s": 300},
             "thorough": {"runs": 4000, "budget_s": 900, "run_timeout_s": 600}},
     "C14": {"quick": {"runs": 400, "budget_s": 70, "run_timeout_s": 300},
@@ -47,6 +49,19 @@ TM_RULE = ("case = (generated program, argument, seeded history of trace transit
            "or a fault fired")
 
 META = {
+    "C20": {"LEVEL": "exploration",
+            "RULE": "case = one of: FFBS / backward_sample outcome tree vs brute-force posterior over K^T sequences (K<=3, T<=4, sparse or "
+                    "dense matrices); discrete_hmm step model iterated with feedback (outcome tree of simulate + assess vs textbook joint); "
+                    "linear_gaussian step model iterated (assess on reference draws, SCRIPTED simulate) vs dense joint; op-level: "
+                    "forward_filter vs enumeration, kalman_filter/smoother vs dense-Gaussian conditioning (d_obs != d_state, T from 1); "
+                    "distinct = distinct (kind, sizes, parameters); non-trivial = T >= 2",
+            "COMPONENTS": {"real": ["genjax.extras.state_space (forward_filter, backward_sample, FFBS, discrete_hmm, linear_gaussian, "
+                                    "kalman_filter, kalman_smoother)", "genjax.core Fn/Distribution"],
+                           "stub": ["SCRIPTED: Seed key splitting and categorical / mvn leaf samplers", "sim/jaxcompat.py"], "regimes": "SCRIPTED"},
+            "ASSUMPTIONS": COMMON_ASSUME + ["filter / smoother clauses are op-level comparisons (pure functions of their input)",
+                                            "float32 Kalman recursions compared with rtol=atol=5e-3 against float64 dense conditioning"],
+            "REQUIRED_PROBES": {"quick": ["k_ffbs", "k_kalman", "tree_complete", "T1"],
+                                "thorough": ["k_ffbs", "k_kalman", "k_hmm_step", "k_lg_step", "k_hmm_filter", "tree_complete", "T1", "sparse", "dobs_ne_dstate"]}},
     "C13": {"LEVEL": "exploration",
             "RULE": "case = (one of the 24 exported distributions or 2 user wrappers, seeded parameters across the domain, values across "
                     "the support incl. edges, sampler configuration in {sample_shape under seed, jit, modular_vmap lanes, vmap over keys}, "
@@ -195,6 +210,8 @@ META = {
 
 DST = "deterministic simulation with fault injection"
 CLAIMS = {
+    "C20": dict(text="backward sampling and the step models are decided through the randomness seam: complete outcome trees give the exact law of the sampled state sequence / simulated joint, compared with brute-force enumeration and dense-Gaussian conditioning; filter/smoother are op-level comparisons against the same references",
+                ref="DESIGN.md 4 C20", note="small sizes (K,M<=3, T<=4, d<=3); float32 tolerance 5e-3 for Kalman recursions", technique=DST + " (SCRIPTED randomness seam + outcome-tree explorer; brute-force / dense-Gaussian reference)"),
     "C13": dict(text="sampler clause simulated over keys and vectorisation configurations (seed, jit, modular_vmap, vmap of keys) with shape/dtype exact and two-stage goodness-of-fit tests against scipy; logpdf and normalisation compared op by op against scipy (pure clauses, labelled as such)",
                 ref="DESIGN.md 4 C13", note="scipy.stats reference; statistical clauses have false-alarm probability ~1e-12 per hypothesis", technique=DST + " (REAL randomness seam over key batches and configurations; op-level reference comparison for the pure clauses)"),
     "C14": dict(text="seeded search over placements of a sampling site in JAX control flow/transformations and over histories of flag flips, cache flushes, logical-clock jumps and failing neighbours; unseeded compile attempts must raise, seeded results must follow the key and not the clock",
